@@ -361,6 +361,56 @@ class Check:
                 self.cov["samples"].append({"program": _brief(p)})
         return verdicts
 
+    def suite_trace(self, intfill=False, select=None, limit=64):
+        """Run the repository's own test suite with the tracing plugin (nothing in /repo is edited) and
+        validate every recorded call.  The suite's own assertions are irrelevant here."""
+        sub = tempfile.mkdtemp(prefix="suite", dir=self.scratch)
+        out = os.path.join(sub, "suite.ndjson")
+        e = dict(os.environ)
+        e.update({"PYTHONPATH": VERIF + os.pathsep + REPO, "PYTHONDONTWRITEBYTECODE": "1", "PYTHONHASHSEED": "0",
+                  "VERIF_TRACE_OUT": out, "VERIF_TRACE_INTFILL": "1" if intfill else "0", "VERIF_TRACE_LIMIT": str(limit),
+                  "OMP_NUM_THREADS": "1", "OPENBLAS_NUM_THREADS": "1"})
+        cmd = [PY, "-m", "pytest", "-q", "-p", "no:cacheprovider", "-p", "harness.pytest_trace_plugin",
+               "--timeout=900", os.path.join(REPO, "tests")]
+        if select:
+            cmd += ["-k", select]
+        p = subprocess.run(cmd, cwd=REPO, env=e, capture_output=True, text=True)
+        tail = (p.stdout.strip().splitlines() or [""])[-1]
+        if not os.path.exists(out):
+            self.problems.append("tracing plugin produced no events:\n" + p.stdout[-2000:] + p.stderr[-2000:])
+            return []
+        # shard by program (tid), keeping the two events of a call together
+        nsh = NCPU
+        files = [open(os.path.join(sub, f"events_{k:03d}.ndjson"), "w") for k in range(nsh)]
+        n = 0
+        with open(out) as f:
+            for line in f:
+                tid = int(line[line.index('"tid":') + 6: line.index(",", line.index('"tid":'))])
+                files[tid % nsh].write(line)
+                n += 1
+        for fh in files:
+            fh.close()
+        shards = [fh.name for fh in files if os.path.getsize(fh.name)]
+        verdicts, problems = validate_shards(shards, sub)
+        self.problems += problems
+        ts = validate_shards.last_stats
+        self.cov["states"] += ts["states"]
+        self.cov["transitions"] += ts["transitions"]
+        self.cov["trace_states"] = self.cov.get("trace_states", 0) + ts["states"]
+        self.cov["events_validated"] += len(verdicts)
+        self.cov["traces_validated_against_impl"] += len({v["tid"] for v in verdicts})
+        self.cov.setdefault("suite_runs", []).append({"intfill": intfill, "pytest": tail, "events": n,
+                                                      "calls": len({v["tid"] for v in verdicts})})
+        bad = {}
+        for v in verdicts:
+            self.cov["drift"] += len(v["drift"])
+            mine = [c for c in v["fails"] if c.startswith(self.pid + ".")]
+            if mine:
+                bad.setdefault(v["tid"], []).append((v, mine))
+        for tid, lst in bad.items():
+            self._triage({"suite_call": tid}, lst, shards)
+        return verdicts
+
     def _event_of(self, shard, tid, seq):
         with open(shard) as f:
             for line in f:
